@@ -135,6 +135,43 @@ def run(ck):
             open(p, "w").write("template<class T> struct W { T t; };\n" + "W<" * depth + "int" + ">" * depth + " v;\n")
             jobs.append((p, [], ["-x", "c++", "-std=c++14", "-ftemplate-depth=2000"], "deep-template-%d" % depth, ""))
 
+        # type-constructor x element-type sweep: every way of building a type applied to every builtin element type clang knows
+        # (accepted or not is decided per header by clang); C and C++ spellings, plus the same constructors over a template parameter
+        elems_c = ["int", "unsigned char", "_Bool", "float", "double", "long double", "__int128", "unsigned __int128", "_Float16", "__fp16", "__bf16", "__float128",
+                   "_BitInt(7)", "unsigned _BitInt(32)", "_BitInt(128)", "_Complex float", "_Complex double", "_Complex int", "void *", "char", "wchar_t_", "enum EN", "struct ST", "union UN",
+                   "td_t", "_Atomic int", "_Atomic(long)", "short", "long long", "fnp_t", "__builtin_va_list", "_Accum", "void"]
+        ctors = [("plain", "typedef %s T0;"), ("ptr", "typedef %s *T0;"), ("cptr", "typedef const %s *const T0;"), ("arr", "typedef %s T0[4];"), ("arr2", "typedef %s T0[2][3];"), ("inc", "extern %s T0[];"),
+                 ("vec", "typedef %s T0 __attribute__((vector_size(16)));"), ("ext", "typedef %s T0 __attribute__((ext_vector_type(4)));"), ("ext3", "typedef %s T0 __attribute__((ext_vector_type(3)));"),
+                 ("complex", "typedef _Complex %s T0;"), ("atomic", "typedef _Atomic(%s) T0;"), ("fnret", "%s T0(void);"), ("fnarg", "void T0(%s a);"), ("fnptr", "typedef %s (*T0)(%s);"),
+                 ("field", "struct S0 { %s m; };"), ("bitf", "struct S0 { %s m : 3; };"), ("ufield", "union S0 { %s m; int k; };"), ("fam", "struct S0 { int n; %s m[]; };"),
+                 ("var", "extern %s T0;"), ("cvar", "static const %s T0 = 0;"), ("aligned", "typedef %s T0 __attribute__((aligned(32)));"), ("typeof", "typedef __typeof__(%s) T0;")]
+        prelude_c = "enum EN { EN_A, EN_B };\nstruct ST { int a; };\nunion UN { int a; float f; };\ntypedef int td_t;\ntypedef int wchar_t_;\ntypedef int (*fnp_t)(int);\n"
+        sweep = []
+        for cn, ct in ctors:
+            for e in elems_c:
+                sweep.append(("c", cn, e, prelude_c + ct.replace("%s", e) + "\nT0_USE\n"))
+        elems_cpp = ["T", "const T", "T *", "T &", "int", "char8_t", "char16_t", "decltype(nullptr)", "bool", "_BitInt(9)", "__bf16", "_Float16", "W<T>", "typename W<T>::type"]
+        ctors_cpp = [("alias", "template <typename T> using A0 = %s;"), ("alias-ext", "template <typename T> using A0 = %s __attribute__((ext_vector_type(4)));"),
+                     ("alias-vec", "template <typename T> using A0 = %s __attribute__((vector_size(16)));"), ("member", "template <typename T> struct A0 { %s m; };"),
+                     ("member-ext", "template <typename T> struct A0 { typedef %s type __attribute__((ext_vector_type(4))); type m; };"), ("member-arr", "template <typename T> struct A0 { %s m[3]; };"),
+                     ("fn", "template <typename T> %s f0(%s);"), ("static", "template <typename T> struct A0 { static %s m; };"), ("base", "template <typename T> struct A0 : W<%s> {};"),
+                     ("default", "template <typename T = %s> struct A0 { T m; };")]
+        prelude_cpp = "template <typename U> struct W { typedef U type; U u; };\n"
+        for cn, ct in ctors_cpp:
+            for e in elems_cpp:
+                for inst in ("", "A0<float> v0;\n", "typedef A0<int> I0; I0 f1(I0);\n"):
+                    if inst and cn in ("fn",):
+                        continue
+                    sweep.append(("cpp", cn, e, prelude_cpp + ct.replace("%s", e) + "\n" + inst))
+        if quick:
+            # the whole constructor x element table is small: keep all of C, sample C++
+            sweep = [x for x in sweep if x[0] == "c"] + r.sample([x for x in sweep if x[0] == "cpp"], 150)
+        for k, (lang, cn, e, text) in enumerate(sweep):
+            text = text.replace("T0_USE\n", "")
+            p = os.path.join(tmp, "sw%d.%s" % (k, "h" if lang == "c" else "hpp"))
+            open(p, "w").write(text)
+            jobs.append((p, [], (["-std=gnu2x"] if lang == "c" else ["-x", "c++", "-std=c++20"]), "sweep-%s-%s-%s" % (lang, cn, re.sub(r"\W+", "_", e)), text))
+
         def one(j):
             p, fl, cl, origin, text = j
             lang = cl
@@ -153,7 +190,9 @@ def run(ck):
             if cls in ("panic", "signal", "hang"):
                 where = re.search(r"panicked at ([^\n:]+:\d+)", err)
                 msg = re.search(r"panicked at [^\n]*\n([^\n]*)", err)
-                key = (where.group(1).replace(REPO + "/", "") if where else ("-".join(origin.split("-")[:2]) if origin.startswith("deep-") else "mutant"))
+                # keyed by file and message, not by line: an unrelated edit above the site must not turn a known panic into a new one
+                key = ((re.sub(r":\d+$", "", where.group(1).replace(REPO + "/", "")) + ":" + re.sub(r"[^A-Za-z]+", "-", (msg.group(1) if msg else "").split(":")[0])[:40].strip("-")) if where
+                       else ("-".join(origin.split("-")[:2]) if origin.startswith("deep-") else "mutant"))
                 ck.violation("C12-%s:%s" % (cls, key), "generation ends with a %s instead of bindings or an error value (%s)" % (cls, (msg.group(1)[:100] if msg else "")), data)
             elif accepted and cls == "error":
                 ck.violation("C12-accepted-but-error", "clang accepts the header but bindgen returns an error", data)
@@ -192,7 +231,9 @@ def run(ck):
             data = {"args": [a.replace(tmp, "<tmp>") for a in args], "exit": rc, "stderr": e[-500:]}
             if cls in ("panic", "signal", "hang"):
                 where = re.search(r"panicked at ([^\n:]+:\d+)", e)
-                ck.violation("C12-%s:%s" % (cls, where.group(1).replace(REPO + "/", "") if where else "cli"), "option / path handling ends with a %s" % cls, data)
+                msg = re.search(r"panicked at [^\n]*\n([^\n]*)", e)
+                ck.violation("C12-%s:%s" % (cls, (re.sub(r":\d+$", "", where.group(1).replace(REPO + "/", "")) + ":" + re.sub(r"[^A-Za-z]+", "-", (msg.group(1) if msg else "").split(":")[0])[:40].strip("-")) if where else "cli"),
+                             "option / path handling ends with a %s" % cls, data)
             elif expect and cls != expect:
                 ck.violation("C12-wrong-outcome", "expected outcome %s, got %s" % (expect, cls), data)
             elif expect == "error" and pat and not re.search(pat, e):
